@@ -422,7 +422,10 @@ func (e *FuncEnc) jsonWrite(in ssa.Instruction, w string, data ssa.Value, dataTe
 func InstallJSONLibrary(w *World) {
 	w.JSONViews = true
 	// the per-variant helpers of oneOf decoders are part of UnmarshalJSON
-	w.InlineNamed = func(f *ssa.Function) bool { return strings.HasPrefix(f.Name(), "unmarshalJSON_") }
+	prevInline := w.InlineNamed
+	w.InlineNamed = func(f *ssa.Function) bool {
+		return strings.HasPrefix(f.Name(), "unmarshalJSON_") || (prevInline != nil && prevInline(f))
+	}
 	if w.Library == nil {
 		w.Library = map[string]LibModel{}
 	}
